@@ -219,14 +219,33 @@ class Hooks(BaseHooks):
                     viol.append(V("sound_flag", i,
                                   f"{kind} answered a {m}x{n} input in the wrong orientation with converged=True but "
                                   f"||{'XA' if col else 'AX'} - I||_F/sqrt({d}) = {true:.3e} (tol {tol:g})"))
-            elif len(draws) >= 4 and all(dr.shape == (d, s) for dr in draws[:4]):
-                Pi = qalg.from_comps(np.stack(draws[:4], axis=-1))
+            else:
+                # the test sketch is a group of four consecutive draws of shape (d, s); the
+                # code draws it first, but nothing in the property fixes WHEN it is drawn, so
+                # every such group is a candidate and the one that reproduces the reported
+                # residual is taken (a refactoring that draws it later must not raise an alarm)
+                cands = [g for g in range(0, len(draws) - 3, 4)
+                         if all(dr.shape == (d, s) for dr in draws[g:g + 4])]
+                Pi = None
+                best = None
+                for g in cands[:12]:
+                    P_ = qalg.from_comps(np.stack(draws[g:g + 4], axis=-1))
+                    pr_ = qalg.fro(qalg.mm(E, P_)) / qalg.fro(P_)
+                    dist = abs(pr_ - rn[-1]) if rn else 0.0
+                    if best is None or dist < best[0]:
+                        best = (dist, P_, pr_)
+                    if not rn or dist <= 1e-10 * (1.0 + nXA):
+                        break
+                if best is not None:
+                    _dist, Pi, proxy = best
+            if tags.get("wrong_orientation"):
+                pass
+            elif Pi is not None:
                 nPi = qalg.fro(Pi)
-                proxy = qalg.fro(qalg.mm(E, Pi)) / nPi
                 if rn and abs(proxy - rn[-1]) > 1e-10 * (1.0 + nXA):
                     viol.append(V("truth", i,
                                   f"last residual {rn[-1]:.6e} is not the proxy residual of the returned X "
-                                  f"({proxy:.6e}) for the recorded test sketch"))
+                                  f"({proxy:.6e}) for any recorded draw that can be the test sketch"))
                 svp = qalg.svdvals(Pi)
                 if s >= d and svp[-1] > 0:
                     K = nPi / (math.sqrt(d) * float(svp[-1]))
@@ -235,9 +254,9 @@ class Hooks(BaseHooks):
                     q = _chi2_lower(4 * s, 1e-15)
                     K = nPi / math.sqrt(d * q)
                     self.cnt["probabilistic_K"] += 1
-            else:
-                viol.append(V("truth", i, f"test sketch not found in the recorded draws "
-                                          f"(first draws {[tuple(dr.shape) for dr in draws[:4]]}, expected {(d, s)})"))
+            elif rn:
+                viol.append(V("truth", i, f"no group of four recorded draws of shape {(d, s)} can be the test sketch "
+                                          f"behind the reported residuals (first draws {[tuple(dr.shape) for dr in draws[:4]]})"))
             key = "iterations" if kind.startswith("rsp") else None
             if key and isinstance(info.get(key), (int, np.integer)) and info[key] != len(rn):
                 viol.append(V("truth", i, f"iterations = {info[key]} but {len(rn)} residuals"))
